@@ -1,6 +1,6 @@
 ------------------------------- MODULE SegMol -------------------------------
-(* C17: bounded exhaustive model.  Pure-function pattern: Init enumerates every input of four
-   families, `exp` holds the specification's answers (computed through the Op_* operators of
+(* C17: bounded exhaustive model.  Pure-function pattern: the model enumerates every input of four
+   families (root state -> chunk states -> input states), `exp` holds the specification's answers (computed through the Op_* operators of
    Segments / BondGraph), the invariants state Impl = Decl for the input at hand.
    The dump of this model is the list of (input, expected) pairs executed against biotite.
 
@@ -36,7 +36,9 @@ RowSeqs == BSeq(RowsFull, FullLen) \cup BSeq(RowsSmall, SmallLen)
 \* data to be reduced: distinct values of both signs / ties
 D1 == <<3, -1, 4, -5, 9, 2, -6>>
 D2 == <<-2, 7, -2, 0, 7, -8, 1>>
-DataFor(rows) == {SubSeq(D1, 1, Len(rows)), SubSeq(D2, 1, Len(rows))}
+\* both vectors for short arrays, one for the many long ones
+DataFor(rows) == IF Len(rows) <= 3 THEN {SubSeq(D1, 1, Len(rows)), SubSeq(D2, 1, Len(rows))}
+                 ELSE {SubSeq(D1, 1, Len(rows))}
 \* per-segment values to be spread
 SpreadVals(c) == [p \in 1..c |-> 7 * p - 10]
 
@@ -73,17 +75,40 @@ LemmaExp(n, E, L) ==
   LET g == Subdivide(n, E, L) IN
   [n |-> g.n, E |-> g.E, eseq |-> EdgeSeq(E), comps |-> Op_MoleculeIndices(g.n, g.E).out, count |-> Op_MoleculeCount(g.n, g.E).out]
 
-Init ==
-  \/ \E rows \in RowSeqs : \E data \in DataFor(rows) :
-       kind = "seg" /\ inp = [rows |-> rows, data |-> data] /\ exp = SegExp(rows, data)
-  \/ \E rows \in BSeq(RowsIdx, IdxRows) : \E idx \in BSeq((-1)..Len(rows), IdxLen) :
-       kind = "idx" /\ inp = [rows |-> rows, idx |-> idx] /\ exp = IdxExp(rows, idx)
-  \/ \E n \in 0..GraphN : \E g \in Graphs(n) :
-       kind = "graph" /\ inp = g /\ exp = GraphExp(g.n, g.E)
-  \/ \E n \in 2..LemmaN : \E g \in Graphs(n) : \E L \in 1..LemmaL :
-       kind = "lemma" /\ inp = [n |-> g.n, E |-> g.E, L |-> L] /\ exp = LemmaExp(g.n, g.E, L)
+(* root -> one "chunk" state per group of inputs -> the inputs.  (TLC evaluates initial states
+   and their invariants in one thread; successors of different chunk states are generated and
+   checked by all workers.) *)
+RestPairs(n) == {<<i, j>> \in AllPairs(n) : i > 0}
+ZeroPairs(n) == {<<i, j>> \in AllPairs(n) : i = 0}
 
-Next == UNCHANGED vars
+Chunks ==
+  {<<"seg0">>}
+  \cup {<<"segF", r>> : r \in RowsFull} \cup {<<"segS", r>> : r \in RowsSmall}
+  \cup {<<"idx", rows>> : rows \in BSeq(RowsIdx, IdxRows)}
+  \cup UNION {{<<"graph", n, E0>> : E0 \in SUBSET ZeroPairs(n)} : n \in 0..GraphN}
+  \cup {<<"lemma", n, L>> : n \in 2..LemmaN, L \in 1..LemmaL}
+
+Set(k, i, e) == kind' = k /\ inp' = i /\ exp' = e
+SegState(rows) == \E data \in DataFor(rows) : Set("seg", [rows |-> rows, data |-> data], SegExp(rows, data))
+
+Expand(c) ==
+  CASE c[1] = "seg0" -> SegState(<<>>)
+    [] c[1] = "segF" -> \E rest \in BSeq(RowsFull, FullLen - 1) : SegState(<<c[2]>> \o rest)
+    [] c[1] = "segS" -> \E rest \in BSeq(RowsSmall, SmallLen - 1) : SegState(<<c[2]>> \o rest)
+    [] c[1] = "idx" ->
+         \E idx \in BSeq((-1)..Len(c[2]), IdxLen) :
+           Set("idx", [rows |-> c[2], idx |-> idx], IdxExp(c[2], idx))
+    [] c[1] = "graph" ->
+         \E rest \in SUBSET RestPairs(c[2]) :
+           LET E == c[3] \cup rest IN Set("graph", [n |-> c[2], E |-> E], GraphExp(c[2], E))
+    [] c[1] = "lemma" ->
+         \E g \in Graphs(c[2]) :
+           Set("lemma", [n |-> g.n, E |-> g.E, L |-> c[3]], LemmaExp(g.n, g.E, c[3]))
+
+Init == kind = "root" /\ inp = <<>> /\ exp = <<>>
+Next ==
+  \/ kind = "root" /\ \E c \in Chunks : Set("chunk", c, <<>>)
+  \/ kind = "chunk" /\ Expand(inp)
 Spec == Init /\ [][Next]_vars
 
 (* ------------------------------------------------------------------ invariants *)
